@@ -34,4 +34,113 @@ theorem unmarshal_keyless_first (old : Store) (bs rest : Bytes) (e : Entry)
 theorem unmarshal_cut_first (old : Store) (bs : Bytes) (h : decodeEntry bs = .err) : unmarshal old bs = .ok [] := by
   simp [unmarshal, h]
 
+/-! ### the whole-snapshot round trip (no unfolding of `readTok` by `rfl`: the heads are rewritten by `simp`) -/
+
+theorem rawOf_append (k : Nat) (l bs rest : Bytes) (hl : l.length = k) (hn : beNat l = bs.length) :
+    rawOf k (l ++ (bs ++ rest)) = some (.raw bs, rest) := by
+  subst hl; simp only [rawOf, readLen, takeN_append, hn]
+
+theorem be16_length (n : Nat) : (be16 n).length = 2 := rfl
+theorem be32_length (n : Nat) : (be32 n).length = 4 := rfl
+
+theorem readTok_da (r : Bytes) : readTok ((0xda : UInt8) :: r) = rawOf 2 r := by
+  simp [readTok]
+theorem readTok_db (r : Bytes) : readTok ((0xdb : UInt8) :: r) = rawOf 4 r := by
+  simp [readTok]
+theorem readTok_c0 (r : Bytes) : readTok ((0xc0 : UInt8) :: r) = some (.nil, r) := by
+  simp [readTok]
+theorem readTok_82 (r : Bytes) : readTok ((0x82 : UInt8) :: r) = some (.map 2, r) := by
+  simp [readTok]
+theorem readTok_a1 (b : UInt8) (r : Bytes) : readTok ((0xa1 : UInt8) :: b :: r) = some (.raw [b], r) := by
+  simp [readTok, takeN]
+
+/-- raw16: 32 ≤ length < 2^16 -/
+theorem readTok_encRaw_16 (bs rest : Bytes) (h1 : ¬ bs.length < 32) (h2 : bs.length < 65536) :
+    readTok (encRaw bs ++ rest) = some (.raw bs, rest) := by
+  unfold encRaw
+  simp only [h1, h2, if_true, if_false, List.cons_append, List.append_assoc, readTok_da]
+  exact rawOf_append 2 (be16 bs.length) bs rest (be16_length _) (beNat_be16 h2)
+
+/-- raw32: 2^16 ≤ length < 2^32 -/
+theorem readTok_encRaw_32 (bs rest : Bytes) (h1 : ¬ bs.length < 32) (h2 : ¬ bs.length < 65536) (h3 : bs.length < 4294967296) :
+    readTok (encRaw bs ++ rest) = some (.raw bs, rest) := by
+  unfold encRaw
+  simp only [h1, h2, if_false, List.cons_append, List.append_assoc, readTok_db]
+  exact rawOf_append 4 (be32 bs.length) bs rest (be32_length _) (beNat_be32 h3)
+
+/-- every byte string below 2^32 bytes, every continuation -/
+theorem readTok_encRaw (bs rest : Bytes) (h : bs.length < 4294967296) :
+    readTok (encRaw bs ++ rest) = some (.raw bs, rest) := by
+  by_cases h1 : bs.length < 32
+  · exact readTok_encRaw_short bs rest h1
+  · by_cases h2 : bs.length < 65536
+    · exact readTok_encRaw_16 bs rest h1 h2
+    · exact readTok_encRaw_32 bs rest h1 h2 h
+
+/-- the two pairs of one written entry, from any starting entry and with any fuel ≥ 2 -/
+theorem fields_encEntry (f : Nat) (e0 e : Entry) (rest : Bytes)
+    (hk : e.key.length < 4294967296) (hv : (valBytes e.value).length < 4294967296) :
+    fields (f + 2) 2 e0 ((0xa1 : UInt8) :: 0x6b :: (encRaw e.key ++ ((0xa1 : UInt8) :: 0x76 :: (encVal e.value ++ rest)))) = .ok e rest := by
+  have hkn : (([0x6b] : Bytes) == kName) = true := by decide
+  have hvk : (([0x76] : Bytes) == kName) = false := by decide
+  have hvn : (([0x76] : Bytes) == vName) = true := by decide
+  rcases e with ⟨k, v⟩
+  cases v with
+  | none =>
+    simp only [fields, readTok_a1, hkn, hvk, hvn, if_true, readTok_encRaw k _ hk, encVal, List.cons_append, List.nil_append,
+      readTok_c0, Bool.false_eq_true, if_false]
+  | some v =>
+    simp only [fields, readTok_a1, hkn, hvk, hvn, if_true, readTok_encRaw k _ hk, encVal, readTok_encRaw v _ hv,
+      Bool.false_eq_true, if_false]
+
+theorem decodeEntry_encEntry (e : Entry) (rest : Bytes)
+    (hk : e.key.length < 4294967296) (hv : (valBytes e.value).length < 4294967296) :
+    decodeEntry (encEntry e ++ rest) = .ok e rest := by
+  have h : encEntry e ++ rest =
+      (0x82 : UInt8) :: ((0xa1 : UInt8) :: 0x6b :: (encRaw e.key ++ ((0xa1 : UInt8) :: 0x76 :: (encVal e.value ++ rest)))) := by
+    simp [encEntry]
+  rw [h]
+  simp only [decodeEntry, readTok_82, List.length_cons]
+  exact fields_encEntry _ zeroEntry e rest hk hv
+
+theorem marshal_length_ge (es : List Entry) : es.length ≤ (marshal es).length := by
+  induction es with
+  | nil => simp [marshal]
+  | cons e es ih => simp [marshal, encEntry]; omega
+
+/-- the restore loop over a written tail: enough fuel, all keys non-empty, lengths in range -/
+theorem loop_marshal (es : List Entry) : ∀ (f : Nat) (e : Entry) (s : Store), es.length < f → e.key ≠ [] →
+    (∀ x ∈ es, x.key ≠ [] ∧ x.key.length < 4294967296 ∧ (valBytes x.value).length < 4294967296) →
+    loop f e (marshal es) s = .ok (putAll s (e :: es)) := by
+  induction es with
+  | nil =>
+    intro f e s hf hk _
+    cases f with
+    | zero => omega
+    | succ f => simp [loop, hk, marshal, decodeEntry, putAll]
+  | cons x es ih =>
+    intro f e s hf hk hall
+    cases f with
+    | zero => omega
+    | succ f =>
+      have hx := hall x (List.mem_cons_self ..)
+      have hd := decodeEntry_encEntry x (marshal es) hx.2.1 hx.2.2
+      have hrec := ih f x (put s e.key (valBytes e.value)) (by simp at hf; omega) hx.1
+        (fun y hy => hall y (List.mem_cons_of_mem _ hy))
+      simp [loop, hk, marshal, hd, hrec, putAll]
+
+theorem unmarshal_marshal (old : Store) (es : List Entry)
+    (hall : ∀ x ∈ es, x.key ≠ [] ∧ x.key.length < 4294967296 ∧ (valBytes x.value).length < 4294967296) :
+    unmarshal old (marshal es) = .ok (putAll [] es) := by
+  cases es with
+  | nil => simp [unmarshal, marshal, decodeEntry, putAll]
+  | cons e es =>
+    have hx := hall e (List.mem_cons_self ..)
+    have hd := decodeEntry_encEntry e (marshal es) hx.2.1 hx.2.2
+    have hl := marshal_length_ge es
+    have hrec := loop_marshal es ((encEntry e ++ marshal es).length + 1) e [] (by simp; omega) hx.1
+      (fun y hy => hall y (List.mem_cons_of_mem _ hy))
+    simp only [List.length_append] at hrec
+    simp [unmarshal, marshal, hd, hx.1, hrec]
+
 end CV.C08.Mp
